@@ -4,6 +4,8 @@ written exactly once, to the file of its sample's group and to no other, in inpu
 records without SM tag are written nowhere; head=N writes exactly the first N selected records in total; with write_group_rg
 every written record has RG = prefix+group and the file's header exactly that @RG; a sample assigned to two groups is refused
 (ValueError, no record written); a legal input never makes the tool raise.
+Second tool, same P-level clauses: bamProcessing/split_bam_by_cluster.py main() (mode "split": annotation file sample -> cluster,
+one coordinate-sorted, indexed <bname>.<cluster>.sorted.bam per cluster, --add_chr_prefix renames the contigs of the header).
 Spec: spec/SampleRoutingP.tla (P-level clauses), spec/SampleRouting.tla (design model of the loop + named deviations),
 spec/Trace_SampleRouting.tla; driver harness/drive_samplerouting.py.  Not registered in MANIFEST.json (properties.jsonl is fixed)."""
 import concurrent.futures
@@ -32,29 +34,47 @@ META = {
 
 ACTIONS_API = ['OpenHandle', 'MapSample', 'Route', 'CloseHandle']
 ACTIONS_CLI = ['ParseLine'] + ACTIONS_API
-DESIGN_Q = [('design_api_q', ACTIONS_API), ('design_norg_q', ACTIONS_API), ('design_cli_q', ACTIONS_CLI), ('design_bam_q', ACTIONS_API)]
-DESIGN_T = [('design_api_t', ACTIONS_API), ('design_cli_t', ACTIONS_CLI), ('design_3groups_t', ACTIONS_API)]
+ACTIONS_SPLIT = ['ParseRow', 'OpenCluster', 'RouteSplit', 'FinishCluster', 'CleanCluster']
+DESIGN_Q = [('design_api_q', ACTIONS_API), ('design_norg_q', ACTIONS_API), ('design_cli_q', ACTIONS_CLI), ('design_bam_q', ACTIONS_API),
+            ('design_split_q', ACTIONS_SPLIT), ('design_splitmq_q', ACTIONS_SPLIT)]
+DESIGN_T = [('design_api_t', ACTIONS_API), ('design_cli_t', ACTIONS_CLI), ('design_3groups_t', ACTIONS_API),
+            ('design_split_t', ACTIONS_SPLIT), ('design_split3_t', ACTIONS_SPLIT)]
 NEG = [('missing_sm_crash_q', ['Inv_X05_NoCrash']), ('replace_all_bam_q', ['Inv_X05_Files']), ('dup_same_group_q', ['Inv_X05_NoCrash']),
        ('head_after_write_q', ['Inv_X05_Head']), ('head_per_group_q', ['Inv_X05_Head']), ('head_off_by_one_q', ['Inv_X05_Head']),
        ('first_group_wins_q', ['Inv_X05_Refused']), ('last_group_wins_q', ['Inv_X05_Refused']),
        ('write_before_rg_q', ['Inv_X05_RecordRG']), ('rg_without_prefix_q', ['Inv_X05_RecordRG']),
        ('header_rg_kept_q', ['Inv_X05_HeaderRG']), ('unselected_to_first_q', ['Inv_X05_Unselected']),
        ('cli_no_clean_q', ['Inv_X05_NoCrash', 'Inv_X05_Files', 'Inv_X05_ExactlyOnce']), ('cli_group_as_sample_q', ['Inv_X05_ExactlyOnce']),
-       ('impl_q', ['Inv_X05_NoCrash', 'Inv_X05_Head', 'Inv_X05_Files'])]
+       ('impl_q', ['Inv_X05_NoCrash', 'Inv_X05_Head', 'Inv_X05_Files']),
+       ('split_skip_always_q', ['Inv_X05s_Files', 'Inv_X05s_ExactlyOnce']), ('split_skip_never_q', ['Inv_X05s_Files']),
+       ('split_dup_last_wins_q', ['Inv_X05s_Refused']), ('split_keep_dups_q', ['Inv_X05s_Unselected']),
+       ('split_no_missing_name_q', ['Inv_X05s_ExactlyOnce']), ('split_no_sort_q', ['Inv_X05s_Sorted']),
+       ('split_no_cleanup_q', ['Inv_X05s_Files']), ('split_no_index_q', ['Inv_X05s_Indexed']),
+       ('split_prefix_some_q', ['Inv_X05s_Header']), ('split_first_cluster_all_q', ['Inv_X05s_Unselected'])]
+# quick runs 18 of the 25 controls (one per clause at least); these near-duplicates of a kept control run in the thorough tier only
+NEG_THOROUGH_ONLY = {'head_off_by_one_q', 'last_group_wins_q', 'rg_without_prefix_q', 'cli_group_as_sample_q', 'split_no_cleanup_q',
+                     'split_first_cluster_all_q', 'split_skip_always_q'}
 # generator cfg -> number of its scenarios replayed into the real code (None = all)
-GEN_Q = [('gen_api_q', 900), ('gen_bam_q', 150), ('gen_cli_q', 500)]
-GEN_T = [('gen_api_t', 12000), ('gen_bam_q', None), ('gen_cli_t', 8000)]
-OBSERVED = ('ev', 'tid', 'in_obs', 'in_sq', 'raised', 'files', 'other', 'index_cmds')
+GEN_Q = [('gen_api_q', 900), ('gen_bam_q', 150), ('gen_cli_q', 500), ('gen_split_q', 250)]
+GEN_T = [('gen_api_t', 12000), ('gen_bam_q', None), ('gen_cli_t', 8000), ('gen_split_t', 3000)]
+OBSERVED = ('ev', 'tid', 'in_obs', 'in_sq', 'in_sqn', 'raised', 'files', 'other', 'index_cmds')
 
 
 def key_fn(ev, clause):
     """clause strings come from TLC; the ones that carry a diagnosis (third field not 'other') are the signature themselves"""
+    if ev['mode'] == 'split':
+        return 'split|%s|chr%d|nocol%d' % (clause, int(ev['chr']), int(ev['nocol']))
     if not clause.endswith('other') and '|' in clause:
         return clause
     return '%s|%s|wrg%d|head%s' % (clause, ev['mode'], int(ev['wrg']), 'none' if ev['head'] == -1 else 'set')
 
 
 def what_fn(ev, clause):
+    if ev['mode'] == 'split':
+        return '%s: split_bam_by_cluster; %d records %s; rows %s; nocol=%s add_chr_prefix=%s mapq=%s tagid=%s -> raised=%r files=%s other=%s' % (
+            clause, len(ev['recs']), json.dumps([[r['sm'], int(r['dup']), r['ci'], r['pos']] for r in ev['recs']][:12]),
+            json.dumps([[x['s'], ''.join(x['c'])] for x in ev['rows']])[:300], ev['nocol'], ev['chr'], ev['mapq'], ev['tagid'], ev['raised'],
+            json.dumps([[f['name'], [x[0] for x in f['sqn']], [r['id'] for r in f['recs']]] for f in ev['files']])[:300], ev['other'][:6])
     sel = ev['asg'] if ev['mode'] == 'api' else ev['lines']
     return '%s: %s via %s; %d records %s; assignment %s; head=%s wrg=%s prefix=%r path=%s.bam -> raised=%r files=%s' % (
         clause, ev['mode'], ev['via'], len(ev['recs']), json.dumps([r['sm'] for r in ev['recs']][:12]), json.dumps(sel)[:300], ev['head'],
@@ -76,6 +96,8 @@ def _parallel_mc(c, jobs):
 
 def _selftests(c, events):
     """corrupt one recorded field of an execution TLC accepted: every corruption must be rejected, untouched copies accepted"""
+    split = [e for e in events if e['mode'] == 'split']
+    events = [e for e in events if e['mode'] != 'split']
     ok = [e for e in events if e['raised'] == '']
     rich = [e for e in ok if e['wrg'] and len([f for f in e['files'] if len(f['recs']) >= 1]) >= 2
             and any(len(f['recs']) >= 2 for f in e['files']) and e['head'] == -1 and e['prefix'] != '']
@@ -147,14 +169,71 @@ def _selftests(c, events):
         e['tid'] = 1000 + k
         m(e)
         evs.append(e)
-    evs += [dict(copy.deepcopy(x), tid=2000 + i) for i, x in enumerate((a0, h0, r0))]
+    # split_bam_by_cluster: an accepted run with two cluster files, one of them holding records at two different coordinates
+    def spread(f):
+        return len(set((r['tid'], r['pos']) for r in f['recs'] if r['tid'] >= 0)) >= 2 and all(r['tid'] >= 0 for r in f['recs'])
+    srich = [e for e in split if e['raised'] == '' and e['chr'] and len([f for f in e['files'] if f['recs']]) >= 2
+             and any(spread(f) for f in e['files'])]
+    srefused = [e for e in split if e['raised'] != '' and not e['files']]
+    if not srich or not srefused:
+        raise vlib.MachineryError('no accepted split execution rich enough for the binding self-tests (rich=%d refused=%d)'
+                                  % (len(srich), len(srefused)))
+    s0, sr0 = srich[0], srefused[0]
+
+    def sfile(e):
+        return [f for f in e['files'] if spread(f)][0]
+
+    def smove(e):
+        src = sfile(e)
+        dst = [f for f in e['files'] if f is not src and f['recs']][0]
+        dst['recs'].append(src['recs'].pop())
+
+    def sdrop(e):
+        sfile(e)['recs'].pop()
+
+    def sunsorted(e):
+        f = sfile(e)
+        f['recs'].reverse()
+
+    def ssq(e):
+        e['files'][0]['sqn'][0][0] = e['in_sqn'][0][0]
+
+    def sbai(e):
+        e['other'] = [x for x in e['other'] if x != e['files'][0]['name'] + '.bai']
+
+    def stmp(e):
+        e['files'].append(dict(copy.deepcopy(e['files'][0]), name=e['files'][0]['name'].replace('.sorted.', '.unsorted.')))
+
+    def sdupwritten(e):          # the description says a written record carried the duplicate flag
+        rid = sfile(e)['recs'][0]['id']
+        for r, o in zip(e['recs'], e['in_obs']):
+            if r['id'] == rid:
+                r['dup'] = o['dup'] = True
+        for r in sfile(e)['recs']:
+            if r['id'] == rid:
+                r['dup'] = True
+
+    def snotrefused(e):
+        e['raised'] = ''
+
+    smuts = [('split_record_in_wrong_file', s0, smove), ('split_record_dropped', s0, sdrop), ('split_file_not_sorted', s0, sunsorted),
+             ('split_contig_not_renamed', s0, ssq), ('split_index_missing', s0, sbai), ('split_unsorted_file_left', s0, stmp),
+             ('split_duplicate_written', s0, sdupwritten), ('split_duplicated_sample_not_refused', sr0, snotrefused)]
+    n0 = len(muts)
+    muts += smuts
+    for k, (name, src, m) in enumerate(smuts):
+        e = copy.deepcopy(src)
+        e['tid'] = 1000 + n0 + k
+        m(e)
+        evs.append(e)
+    evs += [dict(copy.deepcopy(x), tid=2000 + i) for i, x in enumerate((a0, h0, r0, s0, sr0))]
     p = os.path.join(vlib.scratch(), 'selftest_samplerouting.ndjson')
     vlib.write_ndjson(p, evs)
     r = vlib.validate_trace('Trace_SampleRouting', p, n_events=len(evs))
     hit = {x['tid']: x['clause'] for x in r['rejects']}
     for k, (name, src, m) in enumerate(muts):
         c.selftest(name, (1000 + k) in hit, hit.get(1000 + k, 'NOT REJECTED'))
-    c.selftest('untouched_copies_accepted', not any(t in hit for t in (2000, 2001, 2002)), str({t: hit.get(t) for t in (2000, 2001, 2002)}))
+    c.selftest('untouched_copies_accepted', not any(t in hit for t in range(2000, 2005)), str({t: hit.get(t) for t in range(2000, 2005)}))
 
 
 def run(tier):
@@ -163,18 +242,18 @@ def run(tier):
     for m in ('SampleRoutingP', 'SampleRouting', 'Trace_SampleRouting'):
         vlib.sany(m)
     jobs = [('design', 'MC_SampleRouting_%s.cfg' % n, acts, 4) for n, acts in DESIGN_Q]
-    jobs += [('neg', 'MC_SampleRouting_%s.cfg' % n, inv, 2) for n, inv in NEG]
+    jobs += [('neg', 'MC_SampleRouting_%s.cfg' % n, inv, 2) for n, inv in NEG if not (q and n in NEG_THOROUGH_ONLY)]
     if not q:
         jobs += [('design', 'MC_SampleRouting_%s.cfg' % n, acts, 4) for n, acts in DESIGN_T]
     _parallel_mc(c, jobs)
     rng = random.Random(c.seed)
     use = GEN_Q if q else GEN_T
-    with concurrent.futures.ThreadPoolExecutor(max_workers=3) as ex:
+    with concurrent.futures.ThreadPoolExecutor(max_workers=4) as ex:
         pools = list(ex.map(lambda x: vlib.scenarios('SampleRouting', 'MC_SampleRouting_%s.cfg' % x[0],
                                                      env={'JAVA_TOOL_OPTIONS': '-Xmx3g'})['scenarios'], use))
     chosen, pool_n = [], 0
     for (name, n), g in zip(use, pools):
-        if len(g) < 100:
+        if len(g) < 100:   # every generator configuration yields hundreds of scenarios
             raise vlib.MachineryError('scenario generation %s gave only %d scenarios' % (name, len(g)))
         pool_n += len(g)
         if n is not None and n < len(g):
@@ -192,25 +271,32 @@ def run(tier):
     c.samples.append({'note': 'one event = one execution of extract_samples / the command line on one synthetic BAM file, output directory re-read',
                       'executions': len(events), 'from_tlc_scenarios': sum(1 for e in events if e['src'] == 'scenario'),
                       'api_calls': sum(1 for e in events if e['mode'] == 'api'),
-                      'cli_runpy': sum(1 for e in events if e['via'] == 'runpy'), 'cli_subprocess': sum(1 for e in events if e['via'] == 'subprocess'),
-                      'with_head': sum(1 for e in events if e['head'] != -1), 'with_write_group_rg': sum(1 for e in events if e['wrg']),
-                      'refusals': sum(1 for e in events if e['raised'] == 'ValueError'),
+                      'split_bam_by_cluster_runs': sum(1 for e in events if e['mode'] == 'split'),
+                      'cli_runpy': sum(1 for e in events if e['via'] == 'runpy' and e['mode'] == 'cli'), 'cli_subprocess': sum(1 for e in events if e['via'] == 'subprocess'),
+                      'with_head': sum(1 for e in events if e.get('head', -1) != -1), 'with_write_group_rg': sum(1 for e in events if e.get('wrg')),
+                      'refusals': sum(1 for e in events if e['raised'] in ('ValueError', 'Exception')),
                       'records_in': sum(len(e['recs']) for e in events), 'records_out': sum(len(f['recs']) for e in events for f in e['files'])})
     c.assumptions += ['samtools is not installed: the tool\'s `os.system("samtools index ...")` fails; in-process runs replace os.system by a '
                       'stub that returns 127 (no fork), child-process runs leave it alone; index files are not part of the property',
                       'record identity = read name r<id>; record content = md5 of the SAM line without its RG tag',
                       'preconditions (noted, not judged): API group names are clean file names; write_group_rg names a non-empty read group; '
-                      'the output path ends with .bam (always the case here)']
+                      'the output path ends with .bam (always the case here)',
+                      'split_bam_by_cluster: -mapq is parsed and never used by the tool; both readings (no effect / filter) are admitted; records '
+                      'flagged duplicate are dropped and records without the tag are looked up as sample "Missing", as coded (noted)',
+                      'split_bam_by_cluster precondition: tab separated annotation rows with >= 2 cells, no blank lines, cluster names are clean file names']
     rejected = set(x['tid'] for x in r['rejects'])
     if not c.violations:
-        _selftests(c, [e for e in events if e['tid'] not in rejected and e['tid'] not in set(n['tid'] for n in r['notes'] if 'refused' not in n['clause'])])
+        skip = set(n['tid'] for n in r['notes'] if 'refused' not in n['clause'] and not n['clause'].startswith('split_'))
+        _selftests(c, [e for e in events if e['tid'] not in rejected and e['tid'] not in skip])
     else:
         c.notes['selftests_skipped_violations_reported'] = 1
     return c.finish(rule='TLC-enumerated scenarios (<= 3 records over samples a,b,c + no SM; <= 2 groups with <= 2 listed samples incl. the same '
                          'sample twice / in two groups; head none,0..2; write_group_rg; path with a second .bam; sample files of <= 3 lines '
                          'with group texts that need cleaning) + random BAM files of up to 120 records with 0-4 groups, through the function, '
-                         'the command line in-process and as a child process',
-                    extra_cov={'distinct_nontrivial': len(set(json.dumps([e['recs'], e['asg'], e['lines'], e['head'], e['wrg'], e['stem']],
+                         'the command line in-process and as a child process; split_bam_by_cluster main() in-process on TLC-enumerated (<= 2 '
+                         'records with duplicate flag / two positions, <= 2-3 annotation rows incl. "Missing", header line or not, chr prefix or not) '
+                         'and random cases (up to 120 records on 2-3 contigs, unsorted inputs, 1-4 clusters, -tagid SM/XC)',
+                    extra_cov={'distinct_nontrivial': len(set(json.dumps([e['recs'], e.get('asg'), e.get('lines'), e.get('rows'), e.get('head'), e.get('wrg'), e.get('stem'), e.get('chr')],
                                                                           sort_keys=True) for e in events)),
                                'scenario_pool': pool_n})
 
